@@ -389,7 +389,18 @@ def place_expr(q, p, depth=0, seen=None):
     seen = seen or set()
     l = p["l"]
     projs = [e for e in p.get("p", []) if e != "deref"]
-    sfx = "".join(".%s" % (e["f"] if "f" in e else e.get("dc", "?")) for e in projs if isinstance(e, dict))
+    sfx = ""
+    for e in projs:
+        if not isinstance(e, dict):
+            continue
+        if "f" in e:
+            sfx += ".%s" % e["f"]
+        elif "dc" in e:
+            sfx += ".%s" % e["dc"]
+        elif "idx" in e:
+            sfx += "[%s]" % place_expr(q, {"l": e["idx"]}, depth + 1, seen)
+        elif "cidx" in e:
+            sfx += "[%s%d]" % ("-" if e.get("from_end") else "", e["cidx"])
     if 1 <= l <= q.b.d["arg_count"]:
         return "p%d%s" % (l, sfx)
     if l in seen:
